@@ -902,7 +902,8 @@ class Inliner:
         me = self
 
         def top(e):
-            return e is getattr(s, "value", None)
+            # (the whole value of an expression statement / assignment / return is expanded in place; `x += f(..)` has no such form)
+            return e is getattr(s, "value", None) and not isinstance(s, ast.AugAssign)
 
         class H(ast.NodeTransformer):
             def visit_Call(self, n):
